@@ -141,6 +141,7 @@ def parseProg (ts : List String) : Option Spec.AProg :=
         else { P with fns := P.fns ++ [{ name := f, mods := parseMods m, isDef := false, calls := [] }] }
       | ["d", m, f, cs] =>
         { P with fns := P.fns.filter (·.name != f) ++ [{ name := f, mods := parseMods m, isDef := true, calls := parseACalls cs }] }
+      | ["v", _] => { P with hasW := true }
       | _ => P) P)
   | _ => none
 
